@@ -171,3 +171,68 @@ PROPS["C20"] = dict(
     assumptions=[],
     quick=dict(wall=35), thorough=dict(wall=600),
 )
+
+REAL_E2 = dict(real=["server.Manager.HandleCluster connection loop and proposal/reply rendezvous (resultCallback)", "server.handleClusterCommits apply loop",
+                     "server cluster wiring of Start (repeated without listener/signals in the verif-tagged server/verif_cluster.go)",
+                     "server.ClusterCmdFilter", "resp.ParseStream parser goroutine", "memdb executors and data structures, rconf",
+                     "raftexample.RaftNode (startRaft, replayWAL, serveChannels, publishEntries, snapshots, compaction)",
+                     "etcd/raft Node (node.run, raft, raftLog, MemoryStorage, joint conf changes)",
+                     "etcd wal + snap + fileutil on tmpfs files", "rafthttp.Transport object (identity, Raft callback, peer set)"],
+               stubbed=["TCP accept loop and client sockets (simconn implements net.Conn)", "wall clock (testing/synctest fake clock)",
+                        "peer HTTP streams/pipelines (message-level simulated network: per-link queues, drop/delay/reorder/partition; "
+                        "ReportSnapshot/ReportUnreachable issued as the real transport would)",
+                        "durability: shadow durable image fed by the Fsync/Fdatasync hook; crash image = durable bytes plus a seeded subset of "
+                        "unsynced 512-byte sectors; directory operations atomic and durable",
+                        "process kill: the incarnation is marked dead at a seam crossing (sync, send, reply write, quiescence), its output discarded, "
+                        "a new incarnation starts from the crash image",
+                        "snapshot threshold / catch-up window lowered (5-200, window <= threshold) and WAL segment size 4-64 KiB through verif hooks",
+                        "goroutine interleaving inside a node: one external stimulus per quiescence (logical concurrency explored, physical parallelism not)"])
+
+PROPS["C07"] = dict(
+    engine="e2", level="exploration",
+    rule="one evaluation = one seeded run of a 1/3/5-node cluster: 2-5 clients send 12-60 single- and multi-key commands (unique values) to "
+         "tape-chosen nodes while the tape schedules every message delivery, raft tick and client step and the adversary injects message "
+         "drop/reorder/delay, partitions (symmetric, asymmetric, leader isolated) and heals, slow nodes, crash-restart of a minority at "
+         "quiescence or at a sync/send/reply seam, rconf add/delete; then everything is healed and restarted, every node must answer a fresh "
+         "command within 60 simulated seconds and every key is read back on every node; oracles = porcupine over the client history against "
+         "the reference model (unanswered commands stay pending), equal keyspace dumps for equal applied index after every step and at the "
+         "end, no node death; non-trivial = at least two clients answered and (unless the fault-free configuration) at least one fault fired; "
+         "distinct = distinct hash of the full event trace (events, messages with term/index, replies)",
+    state_measure="hash of the per-node (term, role, commit, applied) vector after each step, plus final keyspace dumps",
+    components=REAL_E2,
+    assumptions=["workload restricted to commands on which the standalone server agrees with the reference model (pre-screened per run), "
+                 "space-free and TTL-free arguments (argument fidelity is C14's)",
+                 "client commands are only sent to nodes that currently know a leader (a proposal parked in a leaderless node is replay-inexact)",
+                 "message duplication is not injected (a duplicated forwarded proposal is legitimately appended twice)",
+                 "a client abandons a command after 5-12 simulated seconds and reconnects; abandoned commands stay pending in the history"],
+    quick=dict(wall=40), thorough=dict(wall=900),
+)
+PROPS["C08"] = dict(
+    engine="e2", level="exploration",
+    rule="one evaluation = one seeded run as C07 with the shadow disk in charge: snapshot threshold 5-200 so that the log outgrows it several "
+         "times, crashes of any subset of nodes including all at once, at quiescence or at the k-th sync/send/reply seam crossing, crash image = "
+         "fsynced bytes plus a tape-chosen subset of unsynced sectors, restarts in any order from the node's own image; configurations: "
+         "fault-free, clean kill-all-and-restart after the workload, crashes, crashes plus network faults (separate runs); oracle = after repair every "
+         "acknowledged SET must be visible in the read-back of every node (latest acknowledged or a later in-flight write), the whole history "
+         "incl. read-backs must be linearizable, no node may die taking/applying a snapshot or fail to restart from its own image; "
+         "non-trivial = at least 5 commands acknowledged and (unless fault-free) at least one restart; distinct = distinct trace hash",
+    state_measure="hash of the per-node (term, role, commit, applied) vector after each step, plus final keyspace dumps",
+    components=REAL_E2,
+    assumptions=["sector-atomic storage; directory operations atomic and durable", "as C07 for the workload"],
+    quick=dict(wall=40), thorough=dict(wall=900),
+)
+PROPS["C14"] = dict(
+    engine="e2", level="exploration",
+    rule="one evaluation = one seeded differential run: a program of 6-30 commands over all families whose arguments carry the run's feature "
+         "set (spaces, empty strings, CR/LF, non-UTF-8 bytes, mixed case, filtered commands; a third of the runs plain) is executed through "
+         "a standalone Manager.ExecCommand and through a simulated 1-node or 3-node cluster, fault-free or with message drops/reordering and a "
+         "leader isolation; oracle = i-th replies equal (unordered collections as multisets, errors by class) and the final keyspace dump of "
+         "every replica equals the standalone dump; non-trivial = at least 3 replies compared; distinct = distinct trace hash",
+    state_measure="hash of the per-node (term, role, commit, applied) vector after each step, plus final keyspace dumps",
+    components=REAL_E2,
+    assumptions=["standalone RedisGO is the reference (the reference model is not involved)",
+                 "a program is cut where the standalone server panics (no defined answer; C04's business)",
+                 "commands whose reply depends on the wall clock or on Go map iteration order are not generated",
+                 "under faults a command that goes unanswered ends the comparison (its effect is undetermined)"],
+    quick=dict(wall=40), thorough=dict(wall=900),
+)
